@@ -690,7 +690,7 @@ func TestJanitorLoop(t *testing.T) {
 		cc := cache.Config{Name: "store", Stats: stat, TimeToLive: TickDur(2, u), ExpirationJitter: -1,
 			DeleteExpiredAfter: 2 * u, DeleteExpiredJobInterval: 2 * time.Millisecond,
 			ItemsCountReportInterval: 100000 * time.Hour,
-			EvictionNeeded: func() bool { atomic.AddInt64(&cycles, 1); return false }}
+			EvictionNeeded:           func() bool { atomic.AddInt64(&cycles, 1); return false }}
 		if unlimited {
 			cc.TimeToLive = cache.UnlimitedTTL
 		}
